@@ -1015,13 +1015,21 @@ class Builtins:
             return self.f_copy(pos, kw, fr)
         if name in ("copy.deepcopy",):
             v = pos[0]
+            if v is None or isinstance(v, (int, str, bytes, bool, float)):
+                return v
+            if isinstance(v, SList) and not v.concrete:
+                # a list of objects: a new list of the same length (the element copies are not described further)
+                return SList(None, length=list_len(v), elem=None, fresh=True, label="deepcopy(list)")
+            if isinstance(v, SList) and v.concrete and not v.items:
+                return SList([])
             if isinstance(v, SOpaque):
                 return self.cx.opaque(v.kind)
             if isinstance(v, SObj):
                 res = self.it.index.resolve_method(v.cls, "__deepcopy__")
                 if res:
                     kind, ci, fn = res
-                    return self.it.call_repo(f"{ci.module.rel}:{ci.name}.__deepcopy__", [SDict(concrete={}, fresh=True)], {}, self_obj=v)
+                    memo = pos[1] if len(pos) > 1 else SDict(concrete={}, fresh=True)
+                    return self.it.call_repo(f"{ci.module.rel}:{ci.name}.__deepcopy__", [memo], {}, self_obj=v)
             raise Unsupported("deepcopy")
         if name in ("random.random", "random.randint", "random.choice") and self_obj is None:
             return self.random_call(short, pos, kw)
